@@ -175,6 +175,7 @@ fn host_main(sc: &Scenario, host: u64, meta_out: Arc<Mutex<Vec<ProbeMeta>>>, tmp
         }
     }
     let r = std::panic::catch_unwind(std::panic::AssertUnwindSafe(|| env.execute_blocking()));
+    rec::with(|rc| rc.exec_done.push((host, r.is_err())));
     let harvest = Builder2 { sinks: sinks2, host };
     harvest.harvest();
     for (id, c) in consumers {
